@@ -832,6 +832,48 @@ def _sink_returns(stmts):
     return stmts
 
 
+class _CmpCanon(ast.NodeTransformer):
+    """N28: `a <= x < b` (x a plain name, constant or constant path: evaluating it twice changes nothing) -> `a <= x and x < b`;
+    a comparison with the constant on the left (`0 <= x`) is written with it on the right (`x >= 0`)."""
+    _FLIP = {ast.Lt: ast.Gt, ast.LtE: ast.GtE, ast.Gt: ast.Lt, ast.GtE: ast.LtE, ast.Eq: ast.Eq, ast.NotEq: ast.NotEq}
+
+    def _one(self, node):
+        l, op, r = node.left, node.ops[0], node.comparators[0]
+        if isinstance(l, ast.Constant) and not isinstance(r, ast.Constant) and type(op) in self._FLIP and not isinstance(l.value, (str, bytes)):
+            return ast.copy_location(ast.Compare(left=r, ops=[self._FLIP[type(op)]()], comparators=[l]), node)
+        return node
+
+    def visit_Compare(self, node):
+        self.generic_visit(node)
+        if len(node.ops) > 1:
+            mids = node.comparators[:-1]
+            if all(isinstance(m, (ast.Name, ast.Constant)) or _stable_path(m) for m in mids):
+                operands = [node.left] + list(node.comparators)
+                parts = []
+                for i, op in enumerate(node.ops):
+                    c = ast.copy_location(ast.Compare(left=copy.deepcopy(operands[i]), ops=[op], comparators=[copy.deepcopy(operands[i + 1])]), node)
+                    parts.append(self._one(c))
+                new = ast.copy_location(ast.BoolOp(op=ast.And(), values=parts), node)
+                ast.fix_missing_locations(new)
+                return new
+            return node
+        new = self._one(node)
+        ast.fix_missing_locations(new)
+        return new
+
+    def visit_BoolOp(self, node):
+        self.generic_visit(node)
+        # `a and (b and c)` left by the split above -> `a and b and c`
+        vals = []
+        for v in node.values:
+            if isinstance(v, ast.BoolOp) and type(v.op) is type(node.op):
+                vals += v.values
+            else:
+                vals.append(v)
+        node.values = vals
+        return node
+
+
 def _merge_dict_stores(fdef):
     """N26: `d = {k1: v1, ..}; d[K] = V` (K a new constant key, V not reading d, the store right after the display) -> `d = {k1: v1, .., K: V}`:
     a reply built in two steps and one written as a single display get one form; the evaluation order is unchanged."""
@@ -1314,6 +1356,7 @@ class Normalizer:
         if getattr(fdef, "_normalised", False):
             return
         fdef._normalised = True
+        _CmpCanon().visit(fdef)
         _propagate_bools(fdef)
         fdef.body = _sink_returns(fdef.body)
         state = {"locals": _local_names(fdef), "caller": stack[0], "displays": _single_displays(fdef), "module": modname, "root": fdef}
@@ -1547,6 +1590,7 @@ class Normalizer:
         # the helper's own helpers first (with the extended stack)
         hname = fdef.name.strip("_")
         hcls = qual.split(":")[1].split(".")[0] if "." in qual.split(":")[1] else None
+        _CmpCanon().visit(helper)
         _propagate_bools(helper)
         helper.body = _sink_returns(helper.body)
         sub_state = {"locals": _local_names(helper), "caller": qual, "module": modname, "root": helper}
